@@ -1,6 +1,7 @@
 pub mod c01;
 pub mod c02;
 pub mod c03;
+pub mod c09;
 pub mod common;
 
 use crate::evidence::Ctx;
@@ -10,6 +11,7 @@ pub fn dispatch(ctx: &Ctx) -> Option<i32> {
         "C01" => c01_check(ctx),
         "C02" => c02_check(ctx),
         "C03" => c03_check(ctx),
+        "C09" => c09_check(ctx),
         _ => return None,
     })
 }
@@ -84,5 +86,54 @@ fn c03_check(ctx: &Ctx) -> i32 {
         min_nontrivial: ctx.tier.pick(200, 2000),
         extra: BTreeMap::new(),
     };
+    finish(ctx, agg, rep)
+}
+
+fn c09_check(ctx: &Ctx) -> i32 {
+    let budget = Duration::from_secs(ctx.tier.pick(20, 120));
+    let mut agg = shard_runs(ctx, "peer", ctx.tier.pick(3_000, 200_000), budget, Duration::from_secs(60), Arc::new(c09::run_one));
+    let agg2 = shard_runs(ctx, "stream", ctx.tier.pick(1_000, 50_000), budget, Duration::from_secs(60), Arc::new(c09::run_stream));
+    agg.merge(agg2);
+    let agg3 = shard_runs(ctx, "streampair", ctx.tier.pick(1_000, 50_000), budget, Duration::from_secs(60), Arc::new(c09::run_stream_pair));
+    agg.merge(agg3);
+    // every (direction, kind, flags, peer version) cell that the protocol defines must have been observed
+    let mut required: Vec<String> = Vec::new();
+    for v in [2u8, 3] {
+        for dir in ["emit", "accept"] {
+            for k in ["Reset", "Hello", "PortOpened", "PortCredits", "SendFinish", "ReceiveClose", "ReceiveFinish", "ClientFinish", "ListenerFinish", "Goodbye", "Ping"] {
+                required.push(format!("{dir}:{k}:0:v{v}"));
+            }
+            for f in 0..4 {
+                required.push(format!("{dir}:Data:{f}:v{v}"));
+            }
+            for f in 0..2 {
+                required.push(format!("{dir}:Rejected:{f}:v{v}"));
+                // OpenPort: id flag (2) iff v3
+                required.push(format!("{dir}:OpenPort:{}:v{v}", f | if v >= 3 { 2 } else { 0 }));
+            }
+            for f in 0..8 {
+                required.push(format!("{dir}:PortData:{}:v{v}", f | if v >= 3 { 8 } else { 0 }));
+            }
+        }
+    }
+    let seen = agg.sets.get("cells").cloned().unwrap_or_default();
+    let missing: Vec<String> = required.iter().filter(|c| !seen.contains(*c)).cloned().collect();
+    let mut extra = BTreeMap::new();
+    extra.insert("cells_required".into(), serde_json::json!(required.len()));
+    extra.insert("cells_observed".into(), serde_json::json!(seen.iter().collect::<Vec<_>>()));
+    extra.insert("cells_missing".into(), serde_json::json!(missing));
+    let mut rep = Report {
+        level: "exploration",
+        rule: "one case = one scripted conversation between a real endpoint and the harness speaking reference-codec bytes as a v2 or v3 peer, with seeded Cfg/Hello values, boundary port numbers, sizes, flag choices and answers. The (direction, message kind, flag set, peer version) cell space is enumerated completely (missing cells fail the check); every conversation is non-trivial; distinct by seed.".into(),
+        explanation: "emit: every frame of the real endpoint was decoded by the strict independent decoder and compared with what the triggering API call implies (port named, flags, ids only for v3 peers, chunk bound, Hello fields). accept: reference-encoded frames (v3 forms and id-less v2 forms) had to be understood exactly (request ids/ports/wait, data bytes, response classes, close/finish semantics, Goodbye exchange ends run() with Ok).".into(),
+        assumptions: vec!["harness/src/refcodec.rs is the frozen statement of protocol version 3 (written from the documented layout)".into()],
+        exhaustive: missing.is_empty(),
+        min_nontrivial: ctx.tier.pick(500, 5000),
+        extra,
+    };
+    if !missing.is_empty() {
+        println!("C09: cells not observed: {missing:?}");
+        rep.min_nontrivial = u64::MAX;
+    }
     finish(ctx, agg, rep)
 }
